@@ -1095,6 +1095,8 @@ def run(chk: Check) -> None:
                                           "yamlpath/processor.py"), 1)
     from rules.shared import match_result_deref_rule
     match_result_deref_rule(chk, "C15-D2m", cl, floor=40)
+    from rules.shared import modulo_by_length_rule
+    modulo_by_length_rule(chk, "C15-D2n", cl, floor=40)
     from rules.shared import implicit_ordering_rule
     implicit_ordering_rule(chk, "C15-D2g", [
         f for f in cl if not f.short.startswith(C14_OWNED_PREFIX)], 40)
